@@ -640,11 +640,11 @@ func leanNat(xs []byte) string {
 	return "[" + strings.Join(parts, ", ") + "]"
 }
 
-func leanTy(t octosql.Type) (string, error) {
+func leanTy26(t octosql.Type) (string, error) {
 	many := func(ts []octosql.Type) (string, error) {
 		parts := make([]string, len(ts))
 		for i := range ts {
-			s, err := leanTy(ts[i])
+			s, err := leanTy26(ts[i])
 			if err != nil {
 				return "", err
 			}
@@ -673,7 +673,7 @@ func leanTy(t octosql.Type) (string, error) {
 		if t.List.Element == nil {
 			return ".listNil", nil
 		}
-		e, err := leanTy(*t.List.Element)
+		e, err := leanTy26(*t.List.Element)
 		if err != nil {
 			return "", err
 		}
@@ -959,11 +959,11 @@ func extractWireFunctions(repoDir string) (string, error) {
 			}
 			args := make([]string, len(d.ArgumentTypes))
 			for j := range args {
-				if args[j], err = leanTy(d.ArgumentTypes[j]); err != nil {
+				if args[j], err = leanTy26(d.ArgumentTypes[j]); err != nil {
 					return "", err
 				}
 			}
-			o, err := leanTy(d.OutputType)
+			o, err := leanTy26(d.OutputType)
 			if err != nil {
 				return "", err
 			}
